@@ -47,6 +47,9 @@ Definition frac_to_us (s : Z) : Z := Z.quot (s * 1000) 300 * 1000.
    round-half-away of the exact rational 3*s/10^4 for |s| < 2^44. *)
 Definition us_to_frac (s : Z) : Z := round_half_away (3 * s) 10000.
 
+(* DurationFromDateTime(Epoch1900()) *)
+Definition dur_epoch1900 : Z := dur_from_datetime (CT 1900 1 1 0 0 0 0).
+
 (* splitDays of asetypes/bytes.go *)
 Definition split_days (d : Z) : Z * Z :=
   let days := dur_days d in
@@ -81,12 +84,15 @@ Definition civil_of_days (z0 : Z) : Z * Z * Z :=
   let y := yoe + era * 400 in
   (if m <=? 2 then y + 1 else y, m, d).
 
-(* the instant  (day number) + ns nanoseconds  as civil fields: time.Date(...).Add(ns) *)
+(* the instant  (day number) + ns nanoseconds  as civil fields: time.Date(...).Add(ns);
+   hour = r / 3600e9, minute = r / 60e9 mod 60, second = r / 1e9 mod 60 for r = ns mod 86400e9,
+   computed through the second of the day to keep the divisions small *)
 Definition time_of (day ns : Z) : ctime :=
-  let day' := day + ns / day_ns in
-  let r := ns mod day_ns in
-  let '(y, m, d) := civil_of_days day' in
-  CT y m d (r / 3600000000000) (r / 60000000000 mod 60) (r / 1000000000 mod 60) (r mod 1000000000).
+  let q := ns / day_ns in
+  let r := ns - q * day_ns in
+  let sec := r / 1000000000 in
+  let '(y, m, d) := civil_of_days (day + q) in
+  CT y m d (sec / 3600) (sec / 60 mod 60) (sec mod 60) (r - sec * 1000000000).
 
 Definition day1900 : Z := days_of_civil 1900 1 1.   (* asetime.Epoch1900 *)
 Definition day0001 : Z := days_of_civil 1 1 1.      (* asetime.EpochRataDie, time.Date(1, 1, 1) *)
